@@ -100,14 +100,24 @@ def gen_desc(rng, mode):
             val = min(val, rng.choice([0, 63]))
         ccs.append([_time(rng, hi, pool, max(p_reuse, 0.4), p_jit), 0, num, val, rng.randrange(ninstr),
                     rng.choice(PROGRAMS), int(rng.random() < 0.1)])
+    if not mode.startswith('nopedal'):
+        # pedal timelines: per instrument a run of presses/releases (repeated ons, offs without on included)
+        for i in range(ninstr):
+            if rng.random() < 0.6:
+                down = rng.random() < 0.8
+                for _ in range(rng.randint(1, 4)):
+                    val = rng.choice([64, 100, 127]) if down else rng.choice([0, 1, 63])
+                    ccs.append([_time(rng, hi, pool, max(p_reuse, 0.5), p_jit), 0, 64, val, i,
+                                rng.choice(PROGRAMS), 0])
+                    if rng.random() < 0.8:
+                        down = not down
+        rng.shuffle(ccs)
     d['ccs'] = ccs
     ends = [n[3] for n in notes]
     total = max(ends) if ends else 0
     r = rng.random()
     if r < 0.3:
         total += rng.randint(1, 8) * QS
-    elif r < 0.36 and total > 0:
-        total = rng.randint(0, total)          # total_time does not cover the notes (ill-formed input)
     d['total'] = total
     if mode == 'quant':
         if rng.random() < 0.5:
@@ -193,7 +203,7 @@ def _exhaustive_small():
 
 def cases(rng, tier, n=None):
     thorough = tier == 'thorough'
-    total = 1500 if not thorough else 40000
+    total = 3000 if not thorough else 60000
     if n is not None:
         total = n
     out = []
@@ -203,8 +213,13 @@ def cases(rng, tier, n=None):
         c = gen_desc(rng, mode)
         c['mode'] = mode
         out.append(_mk('sustain', c))
+        # the Gallina specification spec_notes (op 3 of Run/C14.v) against the implementation, inside the quantifier
+        if mode == 'clean' and k % 2 == 0 and in_quantifier(c['desc']):
+            out.append(_mk('spec', c))
     if thorough and n is None:
-        out += _exhaustive_small()
+        ex = _exhaustive_small()
+        out += ex
+        out += [_mk('spec', c['input']) for c in ex if in_quantifier(c['input']['desc'])]
     return out
 
 
@@ -240,7 +255,7 @@ def impl(case):
 # ---------------------------------------------------------------- model
 def model_input(case):
     a = case['input']
-    return [1, a['ctl'], nsio.to_wire(nsio.to_proto(a['desc']))]
+    return [3 if case['op'] == 'spec' else 1, a['ctl'], nsio.to_wire(nsio.to_proto(a['desc']))]
 
 
 def model_output(case, m):
@@ -255,6 +270,8 @@ def equal(case, a, b):
         return False
     if a[0] != 'OK':
         return a == b
+    if case['op'] == 'spec':           # the specification speaks about the notes only
+        return a[1] == b[1]
     return sorted(a[1]) == sorted(b[1]) and a[2:] == b[2:]
 
 
